@@ -194,3 +194,164 @@ Proof.
   - intros Hf y Hy. apply zspan_In in Hy. apply forallb_forall. intros x Hx. apply zspan_In in Hx.
     apply Hf. unfold in_rect. lia.
 Qed.
+
+(* ------------------------------------------------------------------ *)
+(* equality tests                                                       *)
+
+Lemma px_eqb_eq p q : px_eqb p q = true <-> p = q.
+Proof.
+  destruct p as [r g b a], q as [r' g' b' a']. unfold px_eqb; cbn [pr pg pb pa]. split.
+  - intros Hq. f_equal; lia.
+  - intros [= -> -> -> ->]. rewrite !Z.eqb_refl. reflexivity.
+Qed.
+
+Lemma canvas_eqb_eq a : forall b, canvas_eqb a b = true <-> a = b.
+Proof.
+  induction a as [|p a IH]; intros [|q b]; cbn [canvas_eqb]; split; try discriminate; try reflexivity.
+  - intros Hq. apply andb_true_iff in Hq as [H1 H2]. apply px_eqb_eq in H1. apply IH in H2. congruence.
+  - intros [= -> ->]. apply andb_true_iff. split; [apply px_eqb_eq; reflexivity|apply IH; reflexivity].
+Qed.
+
+Lemma canvas_eqb_refl a : canvas_eqb a a = true.
+Proof. apply canvas_eqb_eq. reflexivity. Qed.
+
+Lemma px_diff_false W a b x y : px_diff W a b x y = false -> cget W a x y = cget W b x y.
+Proof.
+  unfold px_diff. intros Hd. apply negb_false_iff in Hd. apply px_eqb_eq. exact Hd.
+Qed.
+
+(* ------------------------------------------------------------------ *)
+(* pointwise similarity of canvases under a pixel projection            *)
+
+Definition psim (pi : px -> px) (W H : Z) (c1 c2 : canvas) : Prop :=
+  forall x y, 0 <= x < W -> 0 <= y < H -> pi (cget W c1 x y) = pi (cget W c2 x y).
+
+Lemma psim_refl pi W H c : psim pi W H c c.
+Proof. intros x y _ _. reflexivity. Qed.
+
+Lemma psim_trans pi W H a b c : psim pi W H a b -> psim pi W H b c -> psim pi W H a c.
+Proof. intros H1 H2 x y Hx Hy. rewrite (H1 x y Hx Hy). apply H2; assumption. Qed.
+
+Lemma psim_sym pi W H a b : psim pi W H a b -> psim pi W H b a.
+Proof. intros H1 x y Hx Hy. symmetry. apply H1; assumption. Qed.
+
+Lemma psim_map pi W H c1 c2 : 0 < W -> 0 <= H ->
+  length c1 = Z.to_nat (W * H) -> length c2 = Z.to_nat (W * H) ->
+  psim pi W H c1 c2 -> map pi c1 = map pi c2.
+Proof.
+  intros HW HH L1 L2 Hs.
+  rewrite <- (tab_cget W H c1 HW HH L1), <- (tab_cget W H c2 HW HH L2).
+  unfold tab. rewrite !map_map. apply map_ext_in. intros i Hi. apply zrange_In in Hi.
+  apply Hs.
+  - apply Z.mod_pos_bound; lia.
+  - split; [apply Z.div_pos; lia|]. apply Z.div_lt_upper_bound; lia.
+Qed.
+
+(* ------------------------------------------------------------------ *)
+(* [push] / [collapse] arithmetic                                       *)
+
+Definition add_head (d : Z) (acc : show) : show :=
+  match acc with (c, d0) :: t => (c, d0 + d) :: t | [] => [] end.
+
+Lemma push_head acc c d : exists d0 t, push acc (c, d) = (c, d0) :: t.
+Proof.
+  destruct acc as [|[c0 d0] t]; cbn [push fst snd]; [eauto|].
+  destruct (canvas_eqb c0 c) eqn:He; [|eauto].
+  apply canvas_eqb_eq in He. subst. eauto.
+Qed.
+
+Lemma push_add acc c d1 d2 : push acc (c, d1 + d2) = add_head d2 (push acc (c, d1)).
+Proof.
+  destruct acc as [|[c0 d0] t]; cbn [push fst snd add_head]; [reflexivity|].
+  destruct (canvas_eqb c0 c); cbn [add_head]; [f_equal; f_equal; lia|reflexivity].
+Qed.
+
+Lemma push_same_head c d0 t d : push ((c, d0) :: t) (c, d) = add_head d ((c, d0) :: t).
+Proof. cbn [push fst snd add_head]. rewrite canvas_eqb_refl. reflexivity. Qed.
+
+Lemma collapse_rev_by_snoc pi l c d :
+  collapse_rev_by pi (l ++ [(c, d)]) = push (collapse_rev_by pi l) (map pi c, d).
+Proof. unfold collapse_rev_by, proj_show. rewrite map_app, fold_left_app. reflexivity. Qed.
+
+(* ------------------------------------------------------------------ *)
+(* list surgery on the muxer's frame list                               *)
+
+Lemma upd_nth_app_last {A} (f : A -> A) (l : list A) a :
+  upd_nth (length l) f (l ++ [a]) = l ++ [f a].
+Proof. induction l as [|b l IH]; cbn [length upd_nth app]; [reflexivity|]. rewrite IH. reflexivity. Qed.
+
+Lemma nth_error_app_last {A} (l : list A) a : nth_error (l ++ [a]) (length l) = Some a.
+Proof. induction l as [|b l IH]; cbn; [reflexivity|exact IH]. Qed.
+
+Section MuxLast.
+  Variables (init : list mrec) (last : mrec).
+  Let recs := init ++ [last].
+  Let idx := Z.of_nat (length init).
+
+  Lemma idx_ok_last : idx_ok recs idx = true.
+  Proof. unfold idx_ok, recs, idx. rewrite app_length. cbn [length]. lia. Qed.
+
+  Lemma mux_dur_last : mux_dur recs idx = m_dur last.
+  Proof.
+    unfold mux_dur. rewrite idx_ok_last. unfold idx, recs. rewrite Nat2Z.id, nth_error_app_last. reflexivity.
+  Qed.
+
+  Lemma mux_set_dur_last d : mux_set_dur recs idx d =
+    init ++ [mkmrec (m_x last) (m_y last) (m_img last) (m_lossy last) (m_blend_none last)
+                    (m_dispose_bg last) (clamp_dur d)].
+  Proof.
+    unfold mux_set_dur. rewrite idx_ok_last. unfold idx, recs. rewrite Nat2Z.id, upd_nth_app_last. reflexivity.
+  Qed.
+
+  Lemma mux_set_dispose_bg_last : mux_set_dispose_bg recs idx =
+    init ++ [mkmrec (m_x last) (m_y last) (m_img last) (m_lossy last) (m_blend_none last) true (m_dur last)].
+  Proof.
+    unfold mux_set_dispose_bg. rewrite idx_ok_last. unfold idx, recs.
+    rewrite Nat2Z.id, upd_nth_app_last. reflexivity.
+  Qed.
+
+  Lemma last_idx_last : last_idx recs = idx.
+  Proof. unfold last_idx, recs, idx. rewrite app_length. cbn [length]. lia. Qed.
+End MuxLast.
+
+(* ------------------------------------------------------------------ *)
+(* the decoder as a left fold                                           *)
+
+Definition dstate0 := (canvas * option (rect * bool))%type.
+
+Definition dstep (W H : Z) (s : dstate0) (f : frame) : dstate0 :=
+  let c1 := match snd s with
+            | Some (r, true) => fill W H (fst s) r
+            | _ => fst s
+            end in
+  (composite W H c1 f, Some (true_rect f, fdispose_bg f)).
+
+Definition dfold (W H : Z) (s : dstate0) (fs : list frame) : dstate0 := fold_left (dstep W H) fs s.
+
+Lemma spec_go_dfold W H fs : forall c p f,
+  spec_go W H c p (fs ++ [f]) = spec_go W H c p fs ++ [fst (dstep W H (dfold W H (c, p) fs) f)].
+Proof.
+  induction fs as [|g fs IH]; intros c p f.
+  - cbn [app spec_go dfold fold_left dstep fst snd]. destruct p as [[r [|]]|]; reflexivity.
+  - cbn [app spec_go]. rewrite IH. cbn [app].
+    replace (dfold W H (c, p) (g :: fs)) with
+      (dfold W H (composite W H match p with Some (r, true) => fill W H c r | _ => c end g,
+                  Some (true_rect g, fdispose_bg g)) fs); [reflexivity|].
+    unfold dfold. cbn [fold_left]. f_equal.
+Qed.
+
+Lemma spec_go_length W H fs : forall c p, length (spec_go W H c p fs) = length fs.
+Proof. induction fs as [|g fs IH]; intros c p; cbn [spec_go length]; [reflexivity|]. rewrite IH. reflexivity. Qed.
+
+Lemma dfold_snoc W H s fs f : dfold W H s (fs ++ [f]) = dstep W H (dfold W H s fs) f.
+Proof. unfold dfold. rewrite fold_left_app. reflexivity. Qed.
+
+Lemma dstep_length W H s f : length (fst (dstep W H s f)) = Z.to_nat (W * H).
+Proof. unfold dstep; cbn [fst]. unfold composite. apply tab_length. Qed.
+
+Lemma combine_snoc {A B} (l1 : list A) (l2 : list B) a b : length l1 = length l2 ->
+  combine (l1 ++ [a]) (l2 ++ [b]) = combine l1 l2 ++ [(a, b)].
+Proof.
+  revert l2. induction l1 as [|x l1 IH]; intros [|y l2] HL; cbn in HL; try discriminate; [reflexivity|].
+  cbn [app combine]. rewrite IH by lia. reflexivity.
+Qed.
